@@ -176,6 +176,11 @@ def generate(rng, tier, index):
             # rewritten and go in any combination
             evs = []
             used = set()
+            if r.random() < 0.25:
+                # `rm *.json`: every defining file disappears between two
+                # scans (a name that was shadowed must not come back)
+                steps.append({'policy': {}, 'pfiles': [['clear']]})
+                continue
             for _ in range(r.choice([1, 1, 2, 2, 3])):
                 f = r.choice(['a.json', 'b.json', 'c.json',
                               'init-pA.json', 'init-pB.json'])
@@ -447,8 +452,14 @@ def execute(plan):
                 import json as _json
                 import os as _os
                 for ev in st.get('pfiles', []):
-                    path = _os.path.join(W.policy_dir, ev[1])
                     W.clock.advance(1)
+                    if ev[0] == 'clear':
+                        for f_ in sorted(_os.listdir(W.policy_dir)):
+                            if f_.endswith('.json'):
+                                _os.remove(_os.path.join(W.policy_dir, f_))
+                        loads.clear()
+                        continue
+                    path = _os.path.join(W.policy_dir, ev[1])
                     if ev[0] == 'write':
                         with open(path, 'w') as fh:
                             _json.dump({ev[2]: ev[3]}, fh)
